@@ -176,9 +176,17 @@ def strip (j : Json) : R Json := do
   let l ← (← jArr (← fld j "names")).toList.mapM jStr
   return .arr (l.map (fun s => Json.str (stripPlural s))).toArray
 
+/-- op `c17.default_msg`: `Logger._default_msg_gen` (`defaultMsg`) for a list of epochs.
+in : kwargs_repr (the text `str(kwargs)`), epochs [...]   out: [message, ...] -/
+def defaultMsgs (j : Json) : R Json := do
+  let kw ← jStr (← fld j "kwargs_repr")
+  let es ← (← jArr (← fld j "epochs")).toList.mapM jInt
+  return .arr (es.map (fun e => Json.str (defaultMsg kw e))).toArray
+
 def handle (op : String) (j : Json) : Option (R Json) :=
   match op with
   | "c17.run" => some (run j)
+  | "c17.default_msg" => some (defaultMsgs j)
   | "c17.strip" => some (strip j)
   | _ => none
 
